@@ -52,17 +52,23 @@ def _split_shapes(m: int, rng: random.Random):
     return parts, shapes
 
 
-def run_backward(scn: dict, rng: random.Random, hostile: bool = False, dtype=torch.float64):
+OTHER = {torch.float64: torch.float32, torch.float32: torch.float64}
+
+
+def run_backward(scn: dict, rng: random.Random, hostile: bool = False, dtype=torch.float64, mixed: bool = False):
+    """``mixed``: the parameter is kept in the OTHER float dtype than the differentiated tensors
+    (mixed precision: the cast is one more differentiable op between them)."""
     from torchjd import backward
     from torchjd.aggregation import Constant
 
     m, k, retain = scn["m"], scn["k"], scn["retain"]
     J = torch.tensor(scn["jac"], dtype=dtype)
-    w = torch.tensor(scn["weights"], dtype=dtype)
+    pdt = OTHER[dtype] if mixed else dtype
+    w = torch.tensor(scn["weights"], dtype=pdt)          # dtype of the Jacobian = dtype of the parameters' gradients
     rec = SweepRecorder()
     probe = make_probe(rec, "p")
-    x = torch.tensor([1.0, -2.0, 3.0], dtype=dtype, requires_grad=True)
-    z = probe(x)
+    x = torch.tensor([1.0, -2.0, 3.0], dtype=pdt, requires_grad=True)
+    z = probe(x).to(dtype)
     if hostile:
         z = VmapHostile.apply(z) / 2
     y = J @ z
@@ -82,22 +88,26 @@ def run_backward(scn: dict, rng: random.Random, hostile: bool = False, dtype=tor
     return rec, grad, exc, {"shapes": [list(s) for s in shapes]}
 
 
-def run_mtl(scn: dict, rng: random.Random, hostile: bool = False, dtype=torch.float64):
+def run_mtl(scn: dict, rng: random.Random, hostile: bool = False, dtype=torch.float64, mixed: bool = False,
+            null_tasks: frozenset = frozenset()):
+    """``null_tasks``: tasks whose loss ignores the features (an all-zero row of the Jacobian); the number
+    of sweeps must not depend on the VALUES of the cotangents."""
     from torchjd import mtl_backward
     from torchjd.aggregation import Constant
 
     m, k, retain = scn["m"], scn["k"], scn["retain"]
     J = torch.tensor(scn["jac"], dtype=dtype)
-    w = torch.tensor(scn["weights"], dtype=dtype)
+    pdt = OTHER[dtype] if mixed else dtype
+    w = torch.tensor(scn["weights"], dtype=pdt)
     rec = SweepRecorder()
     probe = make_probe(rec, "p")
-    x = torch.tensor([1.0, -2.0, 3.0], dtype=dtype, requires_grad=True)
-    z = probe(x)
+    x = torch.tensor([1.0, -2.0, 3.0], dtype=pdt, requires_grad=True)
+    z = probe(x).to(dtype)
     if hostile:
         z = VmapHostile.apply(z) / 2
     f = z * 1.0                                     # the feature tensor (non-leaf)
     ts = [torch.tensor(1.0, dtype=dtype, requires_grad=True) for _ in range(m)]
-    losses = [(J[i] * f).sum() * ts[i] for i in range(m)]
+    losses = [((J[i] * f).sum() * ts[i]) if i not in null_tasks else (ts[i] * 3.0) for i in range(m)]
     exc = None
     with rec:
         try:
@@ -107,7 +117,7 @@ def run_mtl(scn: dict, rng: random.Random, hostile: bool = False, dtype=torch.fl
             exc = e
     grad = None if x.grad is None else x.grad.tolist()
     tgrads = [None if t.grad is None else float(t.grad) for t in ts]
-    texp = [float((J[i] * x.detach()).sum()) for i in range(m)]
+    texp = [float((J[i] * x.detach().to(dtype)).sum()) if i not in null_tasks else 3.0 for i in range(m)]
     return rec, grad, exc, {"task_grads_ok": tgrads == texp}
 
 
@@ -161,6 +171,30 @@ def replay_scenario(ctx: Ctx, scn: dict, fn: str, rng: random.Random, episodes: 
     episodes.append({"ep": len(episodes) + 1, "fn": fn, "m": m, "k": k, "retain": retain, "sweeps": sweeps})
     if m >= 2 and (k == 0 or k >= 2):
         ctx.nontrivial((fn, m, k, retain))
+    # variants: mixed precision (tensors and parameters in different float dtypes) and, for mtl_backward,
+    # tasks whose loss ignores the features; expectations are derived from TLC's rows
+    variants = []
+    if (m + k) % 3 == 0:
+        variants.append(("mixed", {"mixed": True}, expected))
+    if fn == "mtl_backward" and m >= 2 and (m + 2 * k) % 2 == 0:
+        null = frozenset(i for i in range(m) if (i * 7 + m + k) % 3 == 0) or frozenset({m - 1})
+        if len(null) < m:
+            exp_n = [float(sum(scn["weights"][r] * scn["jac"][r][c] for r in range(m) if r not in null)) for c in range(3)]
+            variants.append(("nulltasks", {"null_tasks": null}, exp_n))
+    for vname, kw, vexp in variants:
+        recv, gradv, excv, infov = runner(scn, rng, **kw)
+        ctx.evaluations += 1
+        ctx.count(f"variant_{vname}")
+        if excv is not None:
+            ctx.violation(tag + f":{vname}:raised", f"{fn} ({vname} variant) raised {type(excv).__name__} for a valid chunk size "
+                          f"(m={m}, k={k or None}): {str(excv)[:160]}", {"kind": "scenario", "fn": fn, "scenario": scn, "variant": vname})
+            continue
+        if gradv != vexp:
+            ctx.violation(tag + f":{vname}:value", f"{fn} ({vname} variant) deposited {gradv}, expected {vexp} (m={m}, k={k or None})",
+                          {"kind": "scenario", "fn": fn, "scenario": scn, "variant": vname})
+        episodes.append({"ep": len(episodes) + 1, "fn": f"{fn}[{vname}]", "m": m, "k": k, "retain": retain,
+                         "sweeps": recv.probe_sweeps("p")})
+
     # sequential mode must cope with computations vmap cannot handle
     if k == 1 or m == 1:
         rec2, grad2, exc2, _ = runner(scn, rng, hostile=True)
